@@ -150,6 +150,25 @@ def scale_files(tier):
          None],
         ['file', None], M], 'utf-8')
     out.append(('scale-64k', b))
+    # adjacent content sections of EQUAL declared length (>= 1 KiB) and
+    # different contents: what was read for one section must never show up
+    # in the next when that one is cut short
+    p1 = (b'a' * 59 + b'\n') * 20
+    p2 = (b'b' * 29 + b'\n') * 40
+    d1 = (b'+' + b'x' * 48 + b'\n') * 30
+    d2 = (b'-' + b'y' * 23 + b'\n') * 60
+    js1 = b'{"path": "f", "pad": "' + b'p' * (1500 - 25) + b'"}\n'
+    js2 = b'{"path": "g", "pad": "' + b'q' * (1500 - 25) + b'"}\n'
+    assert len(p1) == len(p2) == 1200 and \
+        len(d1) == len(d2) == len(js1) == len(js2) == 1500
+    out.append(('equal-lengths',
+                b'#diffx: encoding=utf-8, version=1.0\n'
+                b'#.preamble: length=1200\n' + p1 +
+                b'#.change:\n#..preamble: length=1200\n' + p2 +
+                b'#..file:\n#...meta: format=json, length=1500\n' + js1 +
+                b'#...diff: length=1500\n' + d1 +
+                b'#..file:\n#...meta: format=json, length=1500\n' + js2 +
+                b'#...diff: length=1500\n' + d2))
     return out
 
 
